@@ -252,4 +252,4 @@ def main(tier=None, replay=None):
     ck.assumptions += ['supported grammar subset: non-negative coordinates, ROUTED wiring', 'the DEF renderer and the section normaliser of the harness (trusted)',
                        'TLC, JSON reader']
     return ck.finish('seeded random abstract DEF files (all sections) x nets with 0..3 wire segments x point sequences of <= 6 elements over all wildcard patterns, '
-                     'vias with/without orientation and via arrays; distinct by (file text, net)')
+                     'vias with/without orientation and via arrays (also > 256 elements), polygon die areas, design-scale coordinates, a failed parse before the judged one; distinct by (file text, net)')
